@@ -21,6 +21,7 @@ import (
 	commonv2 "metacontroller/pkg/controller/common/api/v2"
 	v1 "metacontroller/pkg/controller/common/customize/api/v1"
 	"metacontroller/pkg/hooks"
+	"sync"
 	"time"
 
 	"k8s.io/apimachinery/pkg/types"
@@ -59,8 +60,12 @@ type Manager struct {
 	dynInformers    *dynamicinformer.SharedInformerFactory
 	parentInformers common.InformerMap
 
-	relatedInformers common.InformerMap
-	customizeCache   *cache.Cache[customizeKey, *v1.CustomizeHookResponse]
+	// relatedInformersLock guards relatedInformers: workers (and the parallel
+	// per-revision hook calls of a rolling update) look related informers up and
+	// create them lazily at the same time.
+	relatedInformersLock sync.Mutex
+	relatedInformers     common.InformerMap
+	customizeCache       *cache.Cache[customizeKey, *v1.CustomizeHookResponse]
 
 	stopCh chan struct{}
 
@@ -125,6 +130,8 @@ func (rm *Manager) Start(stopCh chan struct{}) {
 }
 
 func (rm *Manager) Stop() {
+	rm.relatedInformersLock.Lock()
+	defer rm.relatedInformersLock.Unlock()
 	for _, informer := range rm.relatedInformers {
 		informer.Informer().RemoveEventHandlers()
 		informer.Close()
@@ -167,6 +174,8 @@ func (rm *Manager) getRelatedClient(apiVersion, resource string) (*dynamicclient
 		return nil, nil, err
 	}
 	groupVersion, _ := schema.ParseGroupVersion(apiVersion)
+	rm.relatedInformersLock.Lock()
+	defer rm.relatedInformersLock.Unlock()
 	informer := rm.relatedInformers.Get(groupVersion.WithResource(resource))
 	if informer == nil {
 		informer, err = rm.dynInformers.Resource(apiVersion, resource)
